@@ -88,7 +88,7 @@ func cmdVC(args []string) {
 			}
 			obls = f
 		}
-		res := solveAll(filepath.Join(verifDir, "out", "vc"), e.Background(), obls, *tier, 16, 0)
+		res := solveAllEnc(filepath.Join(verifDir, "out", "vc"), e, obls, *tier, 16, 0)
 		nok := 0
 		for _, r := range res {
 			if r.Status == "unsat" {
